@@ -18,6 +18,8 @@ From PowHsm Require Import Proofs.SrcEquivBlockM.
 From PowHsm Require Import Proofs.SrcEquivBlockProtoM.
 From PowHsm Require Import Proofs.SrcEquivHeartbeatM.
 From PowHsm Require Import Proofs.SrcEquivParamsProtoM.
+From PowHsm Require Import Proofs.SrcEquivGateM.
+From PowHsm Require Import Proofs.SrcLiftGate.
 Open Scope N_scope.
 
 (* for every request and every device script, sign answers only codes docs/protocol.md lists for sign plus the generic ones (closed check on the generated tables vs the generated doc lists) *)
@@ -388,5 +390,46 @@ Theorem C04_source_parameters_handler_is_model :
          srcm_HSM2ProtocolLedger___get_blockchain_parameters init self request w =
          mres rtuple_pv (op_parameters kind req w).
 Proof. exact (@srcm_parameters_handler_ok). Qed.
+
+(* the whole request path of the source = the model's handle_request on every request and world *)
+Theorem C04_source_whole_request_path_is_model :
+  forall (keccak : bytes -> bytes) (kind : dongle_kind) (init : pm pv)
+           (cm : string -> pv -> list pv -> pr pv) (fuel : nat) (self : pv) 
+           (request : json) (w : world),
+         init_ok kind init ->
+         tx_oracles_ok cm ->
+         path_oracle_ok cm ->
+         varint_oracle_ok cm ->
+         block_oracles_ok keccak cm ->
+         keccak_wf keccak ->
+         fuel_ok kind fuel w ->
+         srcm_HSM2ProtocolLedger____internal_handle_request fuel cm init self (of_json request) w =
+         mres of_json (handle_request keccak kind V5 request w).
+Proof. exact (@srcm_handle_request_v5_ok). Qed.
+
+(* every reply of the translated request path carries a generic code or one documented for the command the request names *)
+Theorem C04_source_every_reply_code_documented :
+  forall (keccak : bytes -> bytes) (kind : dongle_kind) (init : pm pv)
+           (cm : string -> pv -> list pv -> pr pv) (fuel : nat) (self : pv) 
+           (request : json) (w : world) (v : pv) (w' : world),
+         env_ok keccak kind init cm fuel w ->
+         srcm_HSM2ProtocolLedger____internal_handle_request fuel cm init self (of_json request) w =
+         (XOk v, w') ->
+         exists (kv : list (str * json)) (c : Z),
+           v = of_json (JObj kv) /\
+           jget KEY_ERRORCODE kv = Some (JInt c) /\
+           (In c DOC_GENERIC \/
+            (exists (req : obj) (cmd : str), names_command request req cmd /\ In c (doc_allowed cmd))).
+Proof. exact (@src_handle_request_documented). Qed.
+
+(* a device error result escapes the translated request path only out of a pending reconnection's bring-up *)
+Theorem C04_source_error_result_only_from_reconnect :
+  forall (keccak : bytes -> bytes) (kind : dongle_kind) (init : pm pv)
+           (cm : string -> pv -> list pv -> pr pv) (fuel : nat) (self : pv) 
+           (request : json) (w : world) (sw : N) (w' : world),
+         env_ok keccak kind init cm fuel w ->
+         srcm_HSM2ProtocolLedger____internal_handle_request fuel cm init self (of_json request) w =
+         (XRaise (ErrorResult sw), w') -> reconnect_leaks kind w sw w'.
+Proof. exact (@src_error_result_only_from_reconnect). Qed.
 
 Example C04_nonvacuous : True. Proof. exact I. Qed. (* concrete runs closed by vm_compute in Proofs/C04.v: blockchainState on Status 0x6B87 / silent device / bad opcode / 0x6F00 answers -905; sign on ERR_SIGN_INVALID_PATH answers -103; ex_error_result_escapes_* exhibit the reconnection-bring-up observation recorded in DESIGN.md *)
